@@ -1,7 +1,7 @@
 (* C21 — Reflogs read back forwards and backwards identically: the statements. *)
 From Coq Require Import List Arith.
 From GixV.Base Require Import Bytes BytesFacts Outcome.
-From GixV.C21 Require Import Model Spec ProofsRev ProofsIter.
+From GixV.C21 Require Import Model Spec ProofsRev ProofsIter ProofsSmall.
 Import ListNotations.
 Local Open Scope nat_scope.
 
@@ -39,6 +39,28 @@ Theorem reverse_without_newline_room_refuted : exists f buf,
   collect (reverse_fuel f) f (init_state f buf) <> Ok (rev (map own (forward f))).
 Proof. exact without_newline_room_refuted. Qed.
 
+(* What "buffer too small" yields, exactly: if [k] is the LAST line that does not fit (it is the first line
+   and longer than the buffer, or a later line at least as long as the buffer), the iterator yields the
+   entries after [k], newest first, then one "buffer too small" error, and ends. *)
+Theorem reverse_too_small : forall f buf pre k post,
+  buf <> [] ->
+  flines f = pre ++ k :: post -> toolong (length buf) pre k -> fits_others (length buf) post ->
+  collect (reverse_fuel f) f (init_state f buf)
+  = Ok (rev (map (fun b => own (from_bytes b)) post) ++ [RTooSmall]).
+Proof. exact reverse_too_small_items. Qed.
+
+(* The two theorems cover every case. *)
+Theorem fits_or_too_small : forall B segs,
+  fits B segs \/ exists pre k post, segs = pre ++ k :: post /\ toolong B pre k /\ fits_others B post.
+Proof. exact fits_or_last_toolong. Qed.
+
+(* Hence for EVERY file and EVERY non-empty buffer, driving Reverse to its end terminates within the fuel
+   bound (3*len+4 turns of the state machine), never panics (slice bounds, copy_within, expect,
+   unreachable!) and never reads outside the file. *)
+Theorem reverse_total : forall f buf, buf <> [] ->
+  exists items, collect (reverse_fuel f) f (init_state f buf) = Ok items /\ ~ In REof items.
+Proof. exact reverse_total_items. Qed.
+
 (* a zero-sized buffer is refused *)
 Theorem reverse_zero_buffer : forall f, reverse_init f [] = Err ZeroBuf.
 Proof. reflexivity. Qed.
@@ -62,3 +84,9 @@ Example sample_reads_two_entries :
   | _ => False
   end.
 Proof. vm_compute. repeat split; reflexivity. Qed.
+
+(* the hypotheses of reverse_too_small are satisfiable: "a\nbc\n" with a 2-byte buffer *)
+Example too_small_sample :
+  flines two_lines = [bs "a"] ++ bs "bc" :: [] /\ toolong 2 [bs "a"] (bs "bc") /\ fits_others 2 [] /\
+  collect (reverse_fuel two_lines) two_lines (init_state two_lines [x00; x00]) = Ok [RTooSmall].
+Proof. vm_compute. repeat split; try constructor. Qed.
